@@ -102,7 +102,7 @@ func checkC08(c *core.Ctx) []core.Floor {
 		{Key: "rows_accepted", Min: 500}, {Key: "rows_refused", Min: 100}, {Key: "row_at_400_insert", Min: 5}, {Key: "row_at_401_insert", Min: 5},
 		{Key: "row_at_400_update", Min: 5}, {Key: "row_at_401_update", Min: 5}, {Key: "stage_reload_small_cache", Min: 20}, {Key: "stage_new_process", Min: 20}, {Key: "stage_crash_recovery", Min: 20},
 		{Key: "single_bytes_covered", Min: 256}, {Key: "via_text", Min: 100}, {Key: "via_direct", Min: 100},
-		{Key: "feature_int_max32_plus1", Min: 1}, {Key: "feature_int_min32_minus1", Min: 1}, {Key: "feature_all_null", Min: 1}, {Key: "feature_wrong_type", Min: 10}, {Key: "feature_wrong_go_type", Min: 10},
+		{Key: "feature_int_max32_plus1", Min: 1}, {Key: "feature_int_min32_minus1", Min: 1}, {Key: "feature_all_null", Min: 1}, {Key: "feature_wrong_type", Min: 10}, {Key: "feature_wrong_go_type", Min: 10}, {Key: "feature_long_text_multibyte", Min: 20},
 	}
 }
 
@@ -185,6 +185,24 @@ func runC08(c *core.Ctx, drv string, idx int) {
 	}
 	ins(alln, "all_null", nil)
 	if vi >= 0 {
+		// a statement text of several kilobytes whose string literals are made
+		// of multi-byte characters (and truncated sequences), shifted by 0-3
+		// bytes from row to row: wherever the front end cuts its input into
+		// chunks, some character straddles the cut
+		pieces := []string{"€", "é", "日", "𝄞", "\xe2\x82", "\xc3", "ß", "\xf0\x9d\x84"}
+		st := &proto.Stmt{Kind: "insert", Table: "t"}
+		for k, nrows := 0, r.Range(8, 14); k < nrows; k++ {
+			v := base()
+			b := []byte("abc"[:k%4])
+			for want := r.Range(60, 110); len(b) < want; {
+				b = append(b, pieces[r.Intn(len(pieces))]...)
+			}
+			v[vi] = proto.Str(string(b))
+			st.Rows = append(st.Rows, v)
+		}
+		atts = append(atts, attempt{st: st, feature: "long_text_multibyte", text: textCase && model.StmtTextOK(st)})
+	}
+	if vi >= 0 {
 		for _, over := range []int{0, 1, -1, 37} {
 			v := base()
 			v[vi] = proto.Str("")
@@ -219,7 +237,8 @@ func runC08(c *core.Ctx, drv string, idx int) {
 	add := func(op proto.Op, m meta) int { mt = append(mt, m); return s.add(op) }
 	addAtt := func(a *attempt) {
 		if a.text {
-			add(proto.Op{K: "sql", SQL: proto.Text(model.RenderStmt(a.st, model.Plain))}, meta{kind: "att", att: a})
+			// integer literals are written with leading zeros now and then
+			add(proto.Op{K: "sql", SQL: proto.Text(model.RenderStmt(a.st, model.Style{ZeroPad: r.Chance(1, 4), R: r}))}, meta{kind: "att", att: a})
 		} else {
 			add(proto.Op{K: "stmt", Stmt: a.st}, meta{kind: "att", att: a})
 		}
